@@ -1199,6 +1199,33 @@ fn get_hbs() -> handlebars::Handlebars<'static> {
             },
         ),
     );
+    // A byte-string literal holding the text. The raw form `br#"..."#` is kept where
+    // it is valid; it would end at the first `"#` in the text and cannot hold
+    // non-ASCII characters, in which case an escaped `b"..."` literal is written.
+    hbs.register_helper(
+        "byte_literal",
+        Box::new(
+            |h: &Helper,
+             _: &Handlebars,
+             _: &Context,
+             _: &mut RenderContext,
+             out: &mut dyn Output|
+             -> HelperResult {
+                let s = h.param(0).unwrap().value().as_str().unwrap();
+                if s.is_ascii() && !s.contains("\"#") && !s.contains('\r') {
+                    out.write(&format!("br#\"{s}\"#"))?;
+                } else {
+                    let escaped: String = s
+                        .bytes()
+                        .flat_map(std::ascii::escape_default)
+                        .map(char::from)
+                        .collect();
+                    out.write(&format!("b\"{escaped}\""))?;
+                }
+                Ok(())
+            },
+        ),
+    );
     hbs.register_helper(
         "snake_case",
         Box::new(
